@@ -43,11 +43,13 @@ def FaithfulDecodes (sentinel : Option Bytes) (adds : List (Bool × Tree)) : Pro
           ∃ c', deBrNew (s.output.buf ++ rest) [.sexp] [] c = .ok (A, rest, c'))
 
 /-- **The open obligation**: `Statement` for the model that reproduces the crate byte for byte,
-unconditionally on the defect-free region.  Proved so far: the part without sentinel
-(`faithful_statement_no_sentinel`).  Missing for `sentinel = some m`: the invariant of `update()` across
-additions (the content assignment has to be *refined* when the pending sentinel is filled — all contents
-that contain the marker are substituted at once, which is sound exactly because the region has one
-pending sentinel at a time and no shared sentinel-containing node), and the pause/resume of the loop. -/
+unconditionally on the whole defect-free region.  Proved: the part without sentinel
+(`faithful_statement_no_sentinel`) and the sub-region `DefectFreeFresh` (`TreeCacheMulti.lean`:
+`faithful_statement_fresh_region` — additions with a sentinel have `NodePtr`s of their own, sentinel not
+the empty atom).  Missing: additions that contain the sentinel *and* share nodes by content (`adds:`); the
+key-content bookkeeping (`KF`) then has to let the content of a content-keyed pair evolve when its
+sentinel is filled, which is sound because such a pair occurs only once in the region; and the empty
+atom as sentinel (the parse stack's list terminator is then the marker). -/
 def FaithfulStatementDefectFree : Prop :=
   ∀ (sentinel : Option Bytes) (adds : List (Bool × Tree)), DefectFree sentinel adds = true →
     FaithfulDecodes sentinel adds
